@@ -1,304 +1,23 @@
-// Implementation harness for C10 and C11: runs scripted histories on the real
-// celma::common::FixedString<L> from $VERIF_REPO/src.
-//
-// case line:  <id> <mode> <L> <init-hex> <other-hex> <op> <op> ...
-//   mode A (C10): any argument values; after every step the state of the object
-//                 (length(), strlen, content, well-formedness verdict) is printed
-//   mode D (C11): the same operation is also applied to a real std::string
-//                 holding the same text; printed are both results and whether
-//                 they are equal after cutting the std::string at L.  A step
-//                 whose std::string counterpart throws (or that is outside the
-//                 documented domain) is printed as "ood" and not executed.
-//
-// Every FixedString lives in a malloc block of exactly sizeof(FixedString<L>)
-// bytes (ASan red zones on both sides, byte exact), C string arguments live in
-// malloc blocks of exactly strlen+1 bytes.  Padding bytes of the object are
-// pre-filled with a pattern and compared after every step.
-// Cases run in a forked child; when a sanitizer (or std::terminate, or a
-// signal) kills the child the parent prints "<id> CRASH:<kind>" and continues
-// with the next case in a new child.
+// Implementation harness for C10 and C11 (main program): see c10_impl.hpp for the
+// case format.  The per-capacity instantiations of c10::run<L> are compiled in
+// c10_p1.cpp .. c10_p5.cpp (parallel build).
 #include <algorithm>
-#include <cstdarg>
-#include <iostream>
-#include <iterator>
-#include <limits>
 #include <csignal>
 #include <cstddef>
-#include <memory>
-#include <new>
-#include <stdexcept>
 #include <string>
-#include <utility>
+#include <vector>
 #include <sys/mman.h>
 #include <sys/wait.h>
 #include <unistd.h>
 #include "case_io.hpp"
-#define private public
-#include "celma/common/fixed_string.hpp"
-#undef private
+
+namespace c10 {
+#define X(n) std::string run_##n(const std::vector<std::string>& w);
+X(1) X(2) X(3) X(4) X(5) X(8) X(10) X(255) X(256) X(300)
+#undef X
+}
 
 namespace {
-
-constexpr size_t NPOS = std::string::npos;
-
-uint64_t num(const std::string& s)
-{
-   if (s == "n") return NPOS;
-   return std::stoull(s);
-}
-char chr(const std::string& s) { return static_cast<char>(std::stoi(s, nullptr, 16)); }
-std::string unum(size_t v) { return v == NPOS ? std::string("npos") : std::to_string(v); }
-std::string sgn(int v) { return v < 0 ? "-1" : (v > 0 ? "1" : "0"); }
-std::string bl(bool b) { return b ? "t" : "f"; }
-std::string hexc(char c) { return vf::hex(reinterpret_cast<const uint8_t*>(&c), 1); }
-
-// C string in a heap block of exactly strlen+1 bytes
-struct CStr
-{
-   char* p; size_t n;
-   explicit CStr(const std::string& hex)
-   {
-      const std::string s = vf::unhexs(hex);
-      n = std::strlen(s.c_str());
-      p = static_cast<char*>(std::malloc(n + 1));
-      std::memcpy(p, s.c_str(), n + 1);
-   }
-   ~CStr() { std::free(p); }
-   CStr(const CStr&) = delete;
-};
-
-struct OutOfDomain {};
-
-template<size_t L> struct Obj
-{
-   using FS = celma::common::FixedString<L>;
-   unsigned char* mem;
-   FS* p;
-   std::vector<unsigned char> pad;   // snapshot of the padding bytes
-   static constexpr size_t lenOff = offsetof(FS, mLength);
-   static constexpr size_t lenSz = sizeof(typename FS::size_type);
-
-   Obj() : mem(static_cast<unsigned char*>(std::malloc(sizeof(FS)))), p(nullptr)
-   {
-      std::memset(mem, 0xA5, sizeof(FS));
-   }
-   ~Obj() { if (p) p->~FS(); std::free(mem); }
-   static bool isPad(size_t i) { return (i >= L + 1 && i < lenOff) || i >= lenOff + lenSz; }
-   void snap()
-   {
-      pad.clear();
-      for (size_t i = 0; i < sizeof(FS); ++i) if (isPad(i)) pad.push_back(mem[i]);
-   }
-   template<typename... A> void construct(A&&... a)
-   {
-      if (p) p->~FS();
-      std::memset(mem, 0xA5, sizeof(FS));
-      p = new (mem) FS(std::forward<A>(a)...);
-      snap();
-   }
-   // well-formedness of the object as the property states it
-   std::string verdict() const
-   {
-      size_t k = 0;
-      for (size_t i = 0; i < sizeof(FS); ++i)
-         if (isPad(i)) { if (pad[k] != mem[i]) return "BAD:pad"; ++k; }
-      const size_t len = p->mLength;
-      if (len > L) return "BAD:len";
-      if (p->mString[len] != '\0') return "BAD:term";
-      return "ok";
-   }
-   size_t cstrlen() const { return ::strnlen(p->mString, L + 1); }
-   std::string content() const
-   {
-      const size_t len = p->mLength;
-      return vf::hex(reinterpret_cast<const uint8_t*>(p->mString), std::min(len, L + 1));
-   }
-   std::string raw() const { return vf::hex(reinterpret_cast<const uint8_t*>(p->mString), L + 1); }
-   std::string state() const
-   {
-      std::string v = verdict();
-      if (v == "ok" && std::memchr(p->mString, 0, p->mLength) == nullptr && cstrlen() != p->mLength)
-         v = "BAD:strlen";
-      return std::to_string(static_cast<size_t>(p->mLength)) + ";" + std::to_string(cstrlen()) + ";"
-         + content() + ";" + v;
-   }
-};
-
-template<size_t L> std::string run(const std::vector<std::string>& w)
-{
-   using FS = celma::common::FixedString<L>;
-   using CIt = typename FS::const_iterator;
-   const bool D = w[1] == "D";
-   Obj<L> F, O;
-   {
-      CStr a(w[3]), b(w[4]);
-      F.construct(a.p);
-      O.construct(b.p);
-   }
-   std::string prop, intl;
-   for (size_t wi = 5; wi < w.size(); ++wi)
-   {
-      std::vector<std::string> a;
-      { std::string cur; for (char c : w[wi]) { if (c == ':') { a.push_back(cur); cur.clear(); } else cur += c; } a.push_back(cur); }
-      const std::string& n = a[0];
-      FS& f = *F.p;
-      FS& o = *O.p;
-      std::string s, os;          // std::string mirrors (mode D)
-      if (D) { s = f.str(); os = o.str(); }
-      const size_t len = f.length();
-      const size_t olen = o.length();
-      std::string rF = "_", rS = "_";
-      bool ood = false;
-      bool swapped = false;
-      // domain requirement (mode D only)
-      auto REQ = [&](bool c) { if (D && !c) throw OutOfDomain{}; };
-      // run the std::string counterpart (mode D only); an exception means "outside the domain"
-#define STD(stmt) do { if (D) { try { stmt; } catch (const std::out_of_range&) { throw OutOfDomain{}; } \
-                                 catch (const std::length_error&) { throw OutOfDomain{}; } } } while (0)
-      try
-      {
-         if (n == "asg_c") { CStr c(a[1]); STD(s.assign(c.p)); f.assign(c.p); }
-         else if (n == "asg_s") { std::string x = vf::unhexs(a[1]); STD(s.assign(x)); f.assign(x); }
-         else if (n == "asg_fs") { STD(s.assign(os)); f.assign(o); }
-         else if (n == "ctor_c") { CStr c(a[1]); STD(s = std::string(c.p)); F.construct(c.p); }
-         else if (n == "ctor_s") { std::string x = vf::unhexs(a[1]); STD(s = x); F.construct(x); }
-         else if (n == "ctor_mv") { STD(s = os); F.construct(std::move(o)); }
-         else if (n == "ctor_cp") { STD(s = os); F.construct(static_cast<const FS&>(o)); }
-         else if (n == "ins_nc") { size_t i = num(a[1]), c = num(a[2]); char ch = chr(a[3]); STD(s.insert(i, c, ch)); f.insert(i, c, ch); }
-         else if (n == "ins_pc") { size_t i = num(a[1]); CStr c(a[2]); size_t k = num(a[3]); REQ(k <= c.n); STD(s.insert(i, c.p, k)); f.insert(i, c.p, k); }
-         else if (n == "ins_c") { size_t i = num(a[1]); CStr c(a[2]); STD(s.insert(i, c.p)); f.insert(i, c.p); }
-         else if (n == "ins_s") { size_t i = num(a[1]); std::string x = vf::unhexs(a[2]); STD(s.insert(i, x)); f.insert(i, x); }
-         else if (n == "ins_ss") { size_t i = num(a[1]); std::string x = vf::unhexs(a[2]); size_t is = num(a[3]), k = num(a[4]); STD(s.insert(i, x, is, k)); f.insert(i, x, is, k); }
-         else if (n == "ins_fs") { size_t i = num(a[1]); STD(s.insert(i, os)); f.insert(i, o); }
-         else if (n == "ins_fss") { size_t i = num(a[1]), is = num(a[2]), k = num(a[3]); STD(s.insert(i, os, is, k)); f.insert(i, o, is, k); }
-         else if (n == "ins_it") { size_t p = num(a[1]); char ch = chr(a[2]); REQ(p < len); STD(s.insert(s.begin() + p, ch));
-                                   auto it = f.insert(CIt(&f, p), ch); if (!D) rF = (it == f.end()) ? "end" : std::to_string(it - f.begin()); }
-         else if (n == "ins_itn") { size_t p = num(a[1]), c = num(a[2]); char ch = chr(a[3]); REQ(p < len); STD(s.insert(s.begin() + p, c, ch));
-                                    auto it = f.insert(CIt(&f, p), c, ch); if (!D) rF = (it == f.end()) ? "end" : std::to_string(it - f.begin()); }
-         else if (n == "erase") { size_t i = num(a[1]), c = num(a[2]); STD(s.erase(i, c)); f.erase(i, c); }
-         else if (n == "erase_it") { size_t p = num(a[1]); REQ(p < len); STD(s.erase(s.begin() + p));
-                                     auto it = f.erase(CIt(&f, p)); if (!D) rF = (it == f.end()) ? "end" : std::to_string(it - f.begin()); }
-         else if (n == "erase_itr") { size_t p = num(a[1]), q = num(a[2]); REQ(p <= q && q <= len && p < len); STD(s.erase(s.begin() + p, s.begin() + q));
-                                      auto it = f.erase(CIt(&f, p), CIt(&f, q)); if (!D) rF = (it == f.end()) ? "end" : std::to_string(it - f.begin()); }
-         else if (n == "push") { char ch = chr(a[1]); STD(s.push_back(ch)); f.push_back(ch); }
-         else if (n == "pop") { REQ(len > 0); STD(s.pop_back()); f.pop_back(); }
-         else if (n == "app_nc") { size_t c = num(a[1]); char ch = chr(a[2]); STD(s.append(c, ch)); f.append(c, ch); }
-         else if (n == "pe_ch") { char ch = chr(a[1]); STD(s += ch); f += ch; }
-         else if (n == "app_s") { std::string x = vf::unhexs(a[1]); STD(s.append(x)); f.append(x); }
-         else if (n == "app_fs") { STD(s.append(os)); f.append(o); }
-         else if (n == "app_ss") { std::string x = vf::unhexs(a[1]); size_t p = num(a[2]), c = num(a[3]); STD(s.append(x, p, c)); f.append(x, p, c); }
-         else if (n == "app_fss") { size_t p = num(a[1]), c = num(a[2]); STD(s.append(os, p, c)); f.append(o, p, c); }
-         else if (n == "app_pc") { CStr c(a[1]); size_t k = num(a[2]); REQ(k <= c.n); STD(s.append(c.p, k)); f.append(c.p, k); }
-         else if (n == "app_c") { CStr c(a[1]); STD(s.append(c.p)); f.append(c.p); }
-         else if (n == "app_it") { size_t p = num(a[1]), q = num(a[2]); if (!(p <= q && q <= olen)) throw OutOfDomain{};
-                                   STD(s.append(os.begin() + p, os.begin() + q)); f.append(CIt(&o, p), CIt(&o, q)); }
-         else if (n == "sprintf") { std::string x = vf::unhexs(a[1]); STD(s = std::string(x.c_str())); f.sprintf("%s", x.c_str()); }
-         else if (n == "rep_fs") { size_t p = num(a[1]), c = num(a[2]); STD(s.replace(p, c, os)); f.replace(p, c, o); }
-         else if (n == "rep_s") { size_t p = num(a[1]), c = num(a[2]); std::string x = vf::unhexs(a[3]); STD(s.replace(p, c, x)); f.replace(p, c, x); }
-         else if (n == "rep_fss") { size_t p = num(a[1]), c = num(a[2]), p2 = num(a[3]), c2 = num(a[4]); STD(s.replace(p, c, os, p2, c2)); f.replace(p, c, o, p2, c2); }
-         else if (n == "rep_ss") { size_t p = num(a[1]), c = num(a[2]); std::string x = vf::unhexs(a[3]); size_t p2 = num(a[4]), c2 = num(a[5]); STD(s.replace(p, c, x, p2, c2)); f.replace(p, c, x, p2, c2); }
-         else if (n == "rep_c") { size_t p = num(a[1]), c = num(a[2]); CStr x(a[3]); STD(s.replace(p, c, x.p)); f.replace(p, c, x.p); }
-         else if (n == "rep_pc") { size_t p = num(a[1]), c = num(a[2]); CStr x(a[3]); size_t c2 = num(a[4]); REQ(c2 <= x.n); STD(s.replace(p, c, x.p, c2)); f.replace(p, c, x.p, c2); }
-         else if (n == "rep_nc") { size_t p = num(a[1]), c = num(a[2]), c2 = num(a[3]); char ch = chr(a[4]); STD(s.replace(p, c, c2, ch)); f.replace(p, c, c2, ch); }
-         else if (n == "swap") { STD(std::swap(s, os)); f.swap(o); swapped = true; }
-         else if (n == "clear") { STD(s.clear()); f.clear(); }
-         // ---------------- observers
-         else if (n == "cmp_fs") { STD(rS = sgn(s.compare(os))); rF = sgn(f.compare(o)); }
-         else if (n == "cmp_s") { std::string x = vf::unhexs(a[1]); STD(rS = sgn(s.compare(x))); rF = sgn(f.compare(x)); }
-         else if (n == "cmp_c") { CStr c(a[1]); STD(rS = sgn(s.compare(c.p))); rF = sgn(f.compare(c.p)); }
-         else if (n == "cmpp_fs") { size_t p = num(a[1]), c = num(a[2]); STD(rS = sgn(s.compare(p, c, os))); rF = sgn(f.compare(p, c, o)); }
-         else if (n == "cmpp_s") { size_t p = num(a[1]), c = num(a[2]); std::string x = vf::unhexs(a[3]); STD(rS = sgn(s.compare(p, c, x))); rF = sgn(f.compare(p, c, x)); }
-         else if (n == "cmpp_c") { size_t p = num(a[1]), c = num(a[2]); CStr x(a[3]); STD(rS = sgn(s.compare(p, c, x.p))); rF = sgn(f.compare(p, c, x.p)); }
-         else if (n == "cmppp_fs") { size_t p = num(a[1]), c = num(a[2]), p2 = num(a[3]), c2 = num(a[4]); STD(rS = sgn(s.compare(p, c, os, p2, c2))); rF = sgn(f.compare(p, c, o, p2, c2)); }
-         else if (n == "cmppp_s") { size_t p = num(a[1]), c = num(a[2]); std::string x = vf::unhexs(a[3]); size_t p2 = num(a[4]), c2 = num(a[5]); STD(rS = sgn(s.compare(p, c, x, p2, c2))); rF = sgn(f.compare(p, c, x, p2, c2)); }
-         else if (n == "cmppp_c") { size_t p = num(a[1]), c = num(a[2]); CStr x(a[3]); size_t c2 = num(a[4]); REQ(c2 <= x.n); STD(rS = sgn(s.compare(p, c, x.p, c2))); rF = sgn(f.compare(p, c, x.p, c2)); }
-         else if (n == "sw_fs") { STD(rS = bl(s.compare(0, os.size(), os) == 0)); rF = bl(f.starts_with(o)); }
-         else if (n == "sw_s") { std::string x = vf::unhexs(a[1]); STD(rS = bl(s.compare(0, x.size(), x) == 0)); rF = bl(f.starts_with(x)); }
-         else if (n == "sw_c") { CStr c(a[1]); STD(rS = bl(s.compare(0, c.n, c.p) == 0)); rF = bl(f.starts_with(c.p)); }
-         else if (n == "sw_ch") { char ch = chr(a[1]); STD(rS = bl(!s.empty() && s.front() == ch)); rF = bl(f.starts_with(ch)); }
-         else if (n == "ew_fs") { STD(rS = bl(s.size() >= os.size() && s.compare(s.size() - os.size(), NPOS, os) == 0)); rF = bl(f.ends_with(o)); }
-         else if (n == "ew_s") { std::string x = vf::unhexs(a[1]); STD(rS = bl(s.size() >= x.size() && s.compare(s.size() - x.size(), NPOS, x) == 0)); rF = bl(f.ends_with(x)); }
-         else if (n == "ew_c") { CStr c(a[1]); STD(rS = bl(s.size() >= c.n && s.compare(s.size() - c.n, NPOS, c.p) == 0)); rF = bl(f.ends_with(c.p)); }
-         else if (n == "ew_ch") { char ch = chr(a[1]); STD(rS = bl(!s.empty() && s.back() == ch)); rF = bl(f.ends_with(ch)); }
-         else if (n == "ct_fs") { REQ(olen > 0); STD(rS = bl(s.find(os) != NPOS)); rF = bl(f.contains(o)); }
-         else if (n == "ct_s") { std::string x = vf::unhexs(a[1]); REQ(!x.empty()); STD(rS = bl(s.find(x) != NPOS)); rF = bl(f.contains(x)); }
-         else if (n == "ct_c") { CStr c(a[1]); REQ(c.n > 0); STD(rS = bl(s.find(c.p) != NPOS)); rF = bl(f.contains(c.p)); }
-         else if (n == "ct_ch") { char ch = chr(a[1]); STD(rS = bl(s.find(ch) != NPOS)); rF = bl(f.contains(ch)); }
-         else if (n == "substr") { size_t p = num(a[1]), c = num(a[2]); STD(rS = vf::hex(s.substr(p, c))); rF = vf::hex(f.substr(p, c)); }
-         else if (n == "copy")
-         {
-            size_t c = num(a[1]), p = num(a[2]);
-            // destination block with exactly the room the contract asks for
-            const size_t room = p < len ? std::min(c, len - p) : 0;
-            std::unique_ptr<char[]> d1(new char[room ? room : 1]), d2(new char[room ? room : 1]);
-            if (D) { try { size_t r = s.copy(d2.get(), c, p); rS = std::to_string(r) + "," + vf::hex(reinterpret_cast<uint8_t*>(d2.get()), r); } catch (const std::out_of_range&) { throw OutOfDomain{}; } }
-            size_t r = f.copy(d1.get(), c, p);
-            rF = std::to_string(r) + "," + vf::hex(reinterpret_cast<uint8_t*>(d1.get()), std::min(r, room));
-         }
-         else if (n == "at") { size_t i = num(a[1]); STD(rS = hexc(s.at(i))); try { rF = hexc(f.at(i)); } catch (const std::out_of_range&) { rF = "E:out_of_range"; } }
-         else if (n == "front") { REQ(len > 0); STD(rS = hexc(s.front())); rF = hexc(f.front()); }
-         else if (n == "back") { REQ(len > 0); STD(rS = hexc(s.back())); rF = hexc(f.back()); }
-         else if (n == "len") { STD(rS = std::to_string(std::min(s.size(), L))); rF = std::to_string(f.length()); }
-         else if (n == "empty") { STD(rS = bl(s.empty())); rF = bl(f.empty()); }
-         else if (n == "str") { STD(rS = vf::hex(s)); rF = vf::hex(f.str()); }
-         else if (n == "eq") { STD(rS = bl(s == os)); rF = bl(f == o); }
-         else if (n == "ne") { STD(rS = bl(s != os)); rF = bl(f != o); }
-         else if (n == "itf") { std::string r; for (auto it = f.begin(); it != f.end(); ++it) r += *it; rF = vf::hex(r);
-                                if (D) { std::string q; for (auto it = s.begin(); it != s.end(); ++it) q += *it; rS = vf::hex(q); } }
-         else if (n == "citf") { std::string r; for (auto it = f.cbegin(); it != f.cend(); it++) r += *it; rF = vf::hex(r);
-                                 if (D) { std::string q; for (auto it = s.cbegin(); it != s.cend(); it++) q += *it; rS = vf::hex(q); } }
-         else if (n == "itr") { std::string r; for (auto it = f.rbegin(); it != f.rend(); ++it) r += *it; rF = vf::hex(r);
-                                if (D) { std::string q; for (auto it = s.rbegin(); it != s.rend(); ++it) q += *it; rS = vf::hex(q); } }
-         else if (n == "citr") { std::string r; for (auto it = f.crbegin(); it != f.crend(); it++) r += *it; rF = vf::hex(r);
-                                 if (D) { std::string q; for (auto it = s.crbegin(); it != s.crend(); it++) q += *it; rS = vf::hex(q); } }
-         // ---------------- find family: <fam>_<overload>
-         else if (n.size() > 2 && n[0] == 'F')
-         {
-            // F<fam>_<ovl> : fam in find rfind ffo ffno flo flno ; ovl fs | s:S | pc:S:cnt | c:S | ch:ch ; last arg = pos
-            const size_t us = n.find('_');
-            const std::string fam = n.substr(1, us - 1), ov = n.substr(us + 1);
-            const bool rev = fam == "rfind" || fam == "flo" || fam == "flno";
-            const size_t pos = num(a.back());
-            REQ(pos < len || (rev ? pos == NPOS : pos == 0));
-            size_t r = 0, q = 0;
-#define FAM(call_f, call_s) do { \
-               if (fam == "find") { r = f.find call_f; if (D) q = s.find call_s; } \
-               else if (fam == "rfind") { r = f.rfind call_f; if (D) q = s.rfind call_s; } \
-               else if (fam == "ffo") { r = f.find_first_of call_f; if (D) q = s.find_first_of call_s; } \
-               else if (fam == "ffno") { r = f.find_first_not_of call_f; if (D) q = s.find_first_not_of call_s; } \
-               else if (fam == "flo") { r = f.find_last_of call_f; if (D) q = s.find_last_of call_s; } \
-               else if (fam == "flno") { r = f.find_last_not_of call_f; if (D) q = s.find_last_not_of call_s; } \
-               else return std::string("unsupported-op:") + n; } while (0)
-            if (ov == "fs") { REQ(olen > 0); FAM((o, pos), (os, pos)); }
-            else if (ov == "s") { std::string x = vf::unhexs(a[1]); REQ(!x.empty()); FAM((x, pos), (x, pos)); }
-            else if (ov == "pc") { CStr c(a[1]); size_t k = num(a[2]); REQ(k > 0 && k <= c.n && pos != NPOS); if (!D && k > c.n + 1) throw OutOfDomain{}; FAM((c.p, pos, k), (c.p, pos, k)); }
-            else if (ov == "c") { CStr c(a[1]); REQ(c.n > 0); FAM((c.p, pos), (c.p, pos)); }
-            else if (ov == "ch") { char ch = chr(a[1]); FAM((ch, pos), (ch, pos)); }
-            else return std::string("unsupported-op:") + n;
-            rF = unum(r); if (D) rS = unum(q);
-         }
-         else return std::string("unsupported-op:") + n;
-      } catch (const OutOfDomain&)
-      {
-         ood = true;
-      }
-      if (!prop.empty()) { prop += ' '; intl += ' '; }
-      if (ood) { prop += "ood"; intl += "-"; continue; }
-      if (D)
-      {
-         const std::string cF = vf::hex(F.p->str());
-         const std::string cS = vf::hex(s.substr(0, L));
-         if (swapped) { rF = "o=" + vf::hex(O.p->str()); rS = "o=" + vf::hex(os.substr(0, L)); }
-         prop += rF + ";" + cF + "|" + rS + ";" + cS + "|" + ((rF == rS && cF == cS) ? "eq" : "NE") + ";" + F.verdict();
-      } else
-      {
-         if (swapped) rF = "o=" + O.state();
-         prop += rF + ";" + F.state();
-      }
-      intl += F.raw() + "/" + O.raw();
-   }
-   return prop + " ## " + intl;
-}
 
 #define CAPS(X) X(1) X(2) X(3) X(4) X(5) X(8) X(10) X(255) X(256) X(300)
 
@@ -306,7 +25,7 @@ std::string run_case(const std::vector<std::string>& w)
 {
    if (w.size() < 5) return "bad-case";
    const size_t cap = std::stoull(w[2]);
-#define X(n) if (cap == n) return run<n>(w);
+#define X(n) if (cap == n) return c10::run_##n(w);
    CAPS(X)
 #undef X
    return "unsupported-capacity";
@@ -336,6 +55,7 @@ std::string crash_kind(const std::string& err, int status)
    {
       size_t q = err.find("instance of '");
       std::string what = q == std::string::npos ? "" : err.substr(q + 13, err.find('\'', q + 13) - q - 13);
+      if (std::getenv("C10_DEBUG")) std::fprintf(stderr, "[[%s]]\n", err.c_str());
       return "terminate:" + what;
    }
    if (WIFSIGNALED(status)) return "signal" + std::to_string(WTERMSIG(status));
